@@ -152,7 +152,10 @@ def step (sigma : List Int) (k : Nat) (rs : Regs) (line : String) : Step :=
     | _ => bad
   | ["min", y, x] =>
     match getReg rs x with
-    | some (.dfa d) => lift d.minimize (fun m => .out (setReg rs y (.dfa m)) ("ok " ++ dumpDFA m))
+    | some (.dfa d) => lift d.minimizePartition (fun P =>
+        let m := buildMin d P
+        -- the marker is never printed by the implementation: an unstable final partition is a mismatch
+        .out (setReg rs y (.dfa m)) ("ok " ++ dumpDFA m ++ (if stableB d P then "" else " !unstable-partition")))
     | _ => bad
   | ["elim", y, x] =>
     match getReg rs x with
